@@ -111,6 +111,10 @@ def _check_state(ds, model, events, viols, where):
                 viols.append(("metadata-created-differs", f"{where} bucket={bid!r} via {src}: want={want['created']} got={created}"))
         b = ds[bid]
         n = b.get_eventcount()
+        top = b.get(1)      # the read every heartbeat starts with: a new or re-created bucket has no newest event
+        if (not events[bid] and top) or (events[bid] and (len(top) != 1 or top[0].data.get("uid") not in events[bid])):
+            viols.append(("limit-1-read-differs", f"{where} bucket={bid!r} model_uids={sorted(events[bid])} "
+                                                  f"got={[e.data.get('uid') for e in top]}"))
         got_uids = sorted(e.data.get("uid") for e in b.get(-1))
         if got_uids != sorted(events[bid]) or n != len(events[bid]):
             viols.append(("bucket-events-differ", f"{where} bucket={bid!r} model_uids={sorted(events[bid])} got_uids={got_uids} count={n}"))
